@@ -78,6 +78,21 @@ for d in sorted(glob.glob(f"{V}/seeded/*/")):
 text = "\n".join(out) + "\n"
 p = f"{V}/DESIGN.md"
 s = open(p).read()
+# mutation sweep summary (mutants/summary.json, maintained by hand from the builders' reports)
+if os.path.exists(f"{V}/mutants/summary.json") and "<!-- MUTSUM:BEGIN -->" in s:
+    ms = json.load(open(f"{V}/mutants/summary.json"))
+    rows = ["| id | mutants | property-breaking, caught at the first run | caught after generalising generators/spec | not property-breaking (equivalent or outside the statement; reported weakly where the model sees them) | property-breaking and still missed | what was generalised |", "|---|---|---|---|---|---|---|"]
+    tot = [0, 0, 0, 0, 0]
+    for pid in ids:
+        m = ms.get(pid)
+        if not m or not m["mutants"]:
+            continue
+        rows.append(f"| {pid} | {m['mutants']} | {m['first']} | {m['after']} | {m['nonbreaking']} | {m['missed']} | {m['note']} |")
+        for i, k in enumerate(["mutants", "first", "after", "nonbreaking", "missed"]):
+            tot[i] += m[k]
+    rows.append(f"| **all** | **{tot[0]}** | **{tot[1]}** | **{tot[2]}** | **{tot[3]}** | **{tot[4]}** | |")
+    mb, me = "<!-- MUTSUM:BEGIN -->", "<!-- MUTSUM:END -->"
+    s = s[:s.index(mb) + len(mb)] + "\n" + "\n".join(rows) + "\n" + s[s.index(me):]
 b, e = "<!-- STATUS:BEGIN -->", "<!-- STATUS:END -->"
 if b not in s:
     s += f"\n---------------------------------------------------------------------------------------\n\n## 12. Status as built (generated by tools/status_md.py; do not edit by hand)\n\n{b}\n{e}\n"
